@@ -4,6 +4,7 @@ import SpVerif.Ops.SpacePacket
 import SpVerif.Ops.PusTc
 import SpVerif.Ops.PusTm
 import SpVerif.Ops.Srv1
+import SpVerif.Ops.SeqCount
 /-!
 # Line-protocol driver: one JSON object per input line (`{"op": …, …}`), one JSON result per output line.
 `{"ok": …}` / `{"err": "<category>"}` are model results; `{"bad": "<msg>"}` is a protocol error.
@@ -17,6 +18,7 @@ def allOps : List (String × Handler) := []
   ++ Ops.PusTc.ops
   ++ Ops.PusTm.ops
   ++ Ops.Srv1.ops
+  ++ Ops.SeqCount.ops
 
 def table : Std.HashMap String Handler := Std.HashMap.ofList allOps
 
